@@ -24,8 +24,9 @@ func (s *Server) References(ctx context.Context, params *protocol.ReferenceParam
 		return nil, nil
 	}
 
-	resolved := s.getWorkspaceResolved(params.TextDocument.URI)
-	currentPath := uriToPath(params.TextDocument.URI)
+	// the primary journal of the tree is the workspace's root journal, not necessarily the
+	// document the request comes from
+	resolved, currentPath := s.getWorkspaceResolvedWithPath(params.TextDocument.URI)
 
 	return findReferences(target, resolved, currentPath, journal, params.Context.IncludeDeclaration), nil
 }
